@@ -70,7 +70,10 @@ pub fn generate(prop: &str, tier: &str, seed: u64, outdir: &str) {
             let _ = &mut rng;
         }
         "C10" => gen_c10(&mut out, &mut rng, thorough),
-        "C06" => gen_c06(&mut out, &mut rng, thorough),
+        "C06" => {
+            gen_c06(&mut out, &mut rng, thorough);
+            gen_fk_directed(&mut out, &mut rng, if thorough { 300 } else { 18 });
+        }
         "C20" => gen_c20(&mut out, &mut rng, thorough),
         _ => {
             eprintln!("no generator for {prop}");
@@ -468,6 +471,17 @@ fn gen_c19(out: &mut Out, rng: &mut Rng, thorough: bool) {
                 }
                 let cond = if rng.chance(1, 3) { "-".to_string() } else { random_expr(rng, 2, &c19_leaves()).to_line() };
                 out.req("query_update", format!("fmtq update {} {} {}", hex_of_str(*rng.pick(&tables)), parts.join(" "), cond));
+            }
+            5 if rng.chance(1, 2) => {
+                // `with()` called several times: the restrictions are AND-ed
+                let n = 2 + rng.below(2) as usize;
+                let conds: Vec<String> = (0..n).map(|_| { let d = 1 + rng.below(2) as usize; random_expr(rng, d, &c19_leaves()).to_line() }).collect();
+                if rng.chance(1, 2) {
+                    out.req("query_delete_withs", format!("fmtq deletew {} {} {}", hex_of_str(*rng.pick(&tables)), n, conds.join(" ")));
+                } else {
+                    let col = hex_of_str(*rng.pick(&["K", "V"]));
+                    out.req("query_update_withs", format!("fmtq updatew {} 1 {} {} {} {}", hex_of_str(*rng.pick(&tables)), col, rng.pick(&lits).tok(), n, conds.join(" ")));
+                }
             }
             _ => {
                 let cond = if rng.chance(1, 3) { "-".to_string() } else { random_expr(rng, 2, &c19_leaves()).to_line() };
@@ -915,6 +929,125 @@ fn gen_c01_directed(out: &mut Out, rng: &mut Rng, n: usize) {
     }
 }
 
+
+/// sessions whose ONLY effect on the string pool is that strings already in it gain references
+/// (nothing interned, nothing released), between two saves; later one of the references is
+/// released in another session: the other cells must keep their text, counts must stay exact
+fn gen_refs_up_directed(out: &mut Out, rng: &mut Rng, n: usize) {
+    let t = hex_of_str("T");
+    let k = hex_of_str("K");
+    let sc = hex_of_str("S");
+    for case in 0..n {
+        out.req("new", format!("new {}", rng.below(3)));
+        out.req("create_table", format!("create_table {t} {k}:i16:K:-:-:-:- {sc}:s32:N:-:-:-:-"));
+        out.req("insert", format!("insert {t} 2 2 I1 S{} 2 I2 S{}", hex_of_str("shared"), hex_of_str("other")));
+        out.req("snapshot", "snapshot".into());
+        out.req("reopen", format!("reopen {}", crate::hist::CLOSE_MODES[case % 3]));
+        out.req("snapshot", "snapshot".into());
+        // only re-references: the text of an existing cell, or the name of a column / table
+        let again = *rng.pick(&["shared", "other", "S", "T", "K"]);
+        match case % 4 {
+            0 | 1 => out.req("insert", format!("insert {t} 1 2 I3 S{}", hex_of_str(again))),
+            2 => out.req("update", format!("update {t} 1 {sc} S{} eq C{k} I2", hex_of_str("shared"))),
+            _ => out.req("insert", format!("insert {t} 2 2 I3 S{} 2 I4 S{}", hex_of_str("shared"), hex_of_str(again))),
+        }
+        out.req("snapshot", "snapshot".into());
+        out.req("reopen", format!("reopen {}", rng.pick(&crate::hist::CLOSE_MODES)));
+        out.req("snapshot", "snapshot".into());
+        out.req("raw", "raw".into());
+        // release one of the references in a third session
+        match rng.below(3) {
+            0 => out.req("delete", format!("delete {t} eq C{k} I3")),
+            1 => out.req("delete", format!("delete {t} eq C{k} I1")),
+            _ => out.req("update", format!("update {t} 1 {sc} S{} eq C{k} I3", hex_of_str("fresh text"))),
+        }
+        out.req("snapshot", "snapshot".into());
+        out.req("reopen", format!("reopen {}", rng.pick(&crate::hist::CLOSE_MODES)));
+        out.req("snapshot", "snapshot".into());
+        out.req("raw", "raw".into());
+        out.req("delete", format!("delete {t} -"));
+        out.req("flush", "flush".into());
+        out.req("snapshot", "snapshot".into());
+        out.req("raw", "raw".into());
+    }
+}
+
+/// every one of the 26 code pages as the database code page, with text from that page's own
+/// repertoire (short, mixed ASCII / multi-byte), saved and reopened in every close mode; then
+/// moved to UTF-8 and back
+fn gen_pages_directed(out: &mut Out, rng: &mut Rng, rounds: usize) {
+    let t = hex_of_str("T");
+    let k = hex_of_str("K");
+    let sc = hex_of_str("S");
+    for round in 0..rounds {
+        for (pi, (page, texts)) in crate::hist::PAGE_SAMPLES.iter().enumerate() {
+            out.req("new", format!("new {}", (pi + round) % 3));
+            out.req("set_db_cp", format!("set_db_cp {page}"));
+            out.req("create_table", format!("create_table {t} {k}:i16:K:-:-:-:- {sc}:s0:N:-:-:-:-"));
+            let mut parts = vec![(texts.len() + 1).to_string()];
+            for (i, x) in texts.iter().enumerate() {
+                parts.push(format!("2 I{} S{}", i + 1, hex_of_str(x)));
+            }
+            parts.push(format!("2 I{} S{}", texts.len() + 1, hex_of_str("first")));
+            out.req("insert", format!("insert {t} {}", parts.join(" ")));
+            out.req("snapshot", "snapshot".into());
+            out.req("reopen", format!("reopen {}", crate::hist::CLOSE_MODES[(pi + round) % 3]));
+            out.req("snapshot", "snapshot".into());
+            out.req("raw", "raw".into());
+            if rng.chance(1, 2) {
+                out.req("set_db_cp", "set_db_cp Utf8".into());
+                out.req("snapshot", "snapshot".into());
+                out.req("reopen", format!("reopen {}", rng.pick(&crate::hist::CLOSE_MODES)));
+                out.req("snapshot", "snapshot".into());
+                out.req("set_db_cp", format!("set_db_cp {page}"));
+            }
+            out.req("update", format!("update {t} 1 {sc} S{} eq C{k} I1", hex_of_str(texts[texts.len() - 1])));
+            out.req("delete", format!("delete {t} eq C{k} I2"));
+            out.req("snapshot", "snapshot".into());
+            out.req("reopen", format!("reopen {}", rng.pick(&crate::hist::CLOSE_MODES)));
+            out.req("snapshot", "snapshot".into());
+            out.req("raw", "raw".into());
+        }
+    }
+}
+
+/// tables whose columns carry a foreign-key annotation naming another table, together with a
+/// category / enumeration / range; the referenced table is then dropped (or rewritten): the
+/// referencing table's definition must survive, in memory and after reopening
+fn gen_fk_directed(out: &mut Out, rng: &mut Rng, n: usize) {
+    let k = hex_of_str("K");
+    for case in 0..n {
+        out.req("new", format!("new {}", rng.below(3)));
+        let a = hex_of_str("A");
+        let b = hex_of_str("B");
+        out.req("create_table", format!("create_table {a} {k}:s32:K:-:-:Identifier:- {}:i16:N:-:-:-:-", hex_of_str("V")));
+        let fk = format!("{},1", a);
+        let c1 = match case % 3 {
+            0 => format!("{}:s72:N:-:{fk}:Identifier:-", hex_of_str("Ref")),
+            1 => format!("{}:s8:N:-:{fk}:-:{},{}", hex_of_str("Ref"), hex_of_str("Main"), hex_of_str("Extra")),
+            _ => format!("{}:i16:N:1,9:{fk}:-:-", hex_of_str("Ref")),
+        };
+        out.req("create_table", format!("create_table {b} {k}:i16:K:-:-:-:- {c1} {}:s0:LN:-:-:Text:-", hex_of_str("D")));
+        out.req("insert", format!("insert {a} 2 2 S{} I1 2 S{} N", hex_of_str("Main"), hex_of_str("Extra")));
+        let refv = if case % 3 == 2 { "I3".to_string() } else { format!("S{}", hex_of_str("Main")) };
+        out.req("insert", format!("insert {b} 1 3 I1 {refv} S{}", hex_of_str("some text")));
+        out.req("snapshot", "snapshot".into());
+        if rng.chance(1, 2) {
+            out.req("reopen", format!("reopen {}", rng.pick(&crate::hist::CLOSE_MODES)));
+            out.req("snapshot", "snapshot".into());
+        }
+        out.req("drop_table", format!("drop_table {a}"));
+        out.req("snapshot", "snapshot".into());
+        out.req("reopen", format!("reopen {}", crate::hist::CLOSE_MODES[case % 3]));
+        out.req("snapshot", "snapshot".into());
+        out.req("raw", "raw".into());
+        // the definition still gates values
+        out.req("insert", format!("insert {b} 1 3 I2 S{} N", hex_of_str("not an identifier!")));
+        out.req("insert", format!("insert {b} 1 3 I3 {refv} N"));
+        out.req("snapshot", "snapshot".into());
+    }
+}
+
 fn gen_hist_prop(prop: &str, out: &mut Out, rng: &mut Rng, thorough: bool) {
     use crate::hist::*;
     let mut cfg = HistCfg {
@@ -926,6 +1059,7 @@ fn gen_hist_prop(prop: &str, out: &mut Out, rng: &mut Rng, thorough: bool) {
     match prop {
         "C03" | "C05" => {
             gen_exhaustive(out, if thorough { 4 } else { 3 }, thorough);
+            gen_refs_up_directed(out, rng, if thorough { 300 } else { 24 });
             cfg.streams = false;
             cfg.summary = false;
             cfg.raw = false;
@@ -935,10 +1069,15 @@ fn gen_hist_prop(prop: &str, out: &mut Out, rng: &mut Rng, thorough: bool) {
         }
         "C01" => {
             gen_c01_directed(out, rng, if thorough { 1500 } else { 90 });
+            gen_refs_up_directed(out, rng, if thorough { 300 } else { 24 });
+            gen_pages_directed(out, rng, if thorough { 6 } else { 1 });
+            gen_fk_directed(out, rng, if thorough { 300 } else { 18 });
         }
         "C08" => {
             cfg.summary = false;
             gen_c08_directed(out, rng, if thorough { 600 } else { 60 });
+            gen_refs_up_directed(out, rng, if thorough { 300 } else { 24 });
+            gen_pages_directed(out, rng, if thorough { 6 } else { 1 });
         }
         _ => {}
     }
@@ -1115,6 +1254,32 @@ fn gen_c10(out: &mut Out, rng: &mut Rng, thorough: bool) {
         }
     }
     out.exhaustive.push(format!("all sequences of {depth} setter/clearer operations over {} operations, each followed by save and reopen", ops.len()));
+    // every code page as the summary code page with short text from its own repertoire (plain,
+    // mixed with ASCII on either side), in every property, through save and reopen, then to
+    // UTF-8 and back
+    for round in 0..(if thorough { 4 } else { 1 }) {
+        for (pi, (page, texts)) in crate::hist::PAGE_SAMPLES.iter().enumerate() {
+            out.req("new", format!("new {}", (pi + round) % 3));
+            out.req("set_cp", format!("sum_set cp {page}"));
+            for (i, x) in texts.iter().enumerate() {
+                out.req("set_str", format!("sum_set {} {}", props[(i + round) % props.len()], hex_of_str(x)));
+            }
+            out.req("snapshot", "snapshot".into());
+            out.req("flush", "flush".into());
+            out.req("summary_raw", "@summary_raw".into());
+            out.req("reopen", format!("reopen {}", crate::hist::CLOSE_MODES[(pi + round) % 3]));
+            out.req("snapshot", "snapshot".into());
+            out.req("set_cp", "sum_set cp Utf8".into());
+            out.req("snapshot", "snapshot".into());
+            out.req("reopen", format!("reopen {}", rng.pick(&crate::hist::CLOSE_MODES)));
+            out.req("snapshot", "snapshot".into());
+            out.req("set_cp", format!("sum_set cp {page}"));
+            out.req("set_str", format!("sum_set {} {}", props[(pi + round) % props.len()], hex_of_str(texts[0])));
+            out.req("snapshot", "snapshot".into());
+            out.req("reopen", format!("reopen {}", rng.pick(&crate::hist::CLOSE_MODES)));
+            out.req("snapshot", "snapshot".into());
+        }
+    }
     // every code page, strings of every length class modulo 4, in any switching order
     let n = if thorough { 6000 } else { 500 };
     for _ in 0..n {
@@ -1287,6 +1452,12 @@ fn gen_c20(out: &mut Out, rng: &mut Rng, thorough: bool) {
     for c in row_cases {
         out.req("rows_limit", format!("@rows_limit {c}"));
     }
+    // catalog tables: `_Columns` / `_Validation` hold one row per column of every table; a
+    // create_table that would take them past the row limit, exactly to it, and after a drop
+    out.req("catalog_limit", "@catalog_limit 32".into());
+    if thorough {
+        out.req("catalog_limit", "@catalog_limit 7".into());
+    }
     // strings: a pool that is one entry short of what two-byte references can address
     out.req("strings_limit", "@pool_limit 65533".into());
     out.req("strings_limit", "@pool_limit 65534".into());
@@ -1313,6 +1484,23 @@ fn gen_c16(out: &mut Out, rng: &mut Rng, thorough: bool) {
     for _ in 0..n {
         // build a package with some content, save it, reopen it
         crate::hist::gen_session(out, rng, &cfg);
+        if rng.chance(1, 3) {
+            // states a reader might want to "tidy": a table whose stream exists but holds no rows
+            // (every row deleted again, or an insert of no rows), a pool ending in released entries
+            let e = hex_of_str("Emptied");
+            out.req("create_table", format!("create_table {e} {}:i16:K:-:-:-:- {}:s0:N:-:-:-:-", hex_of_str("K"), hex_of_str("S")));
+            match rng.below(3) {
+                0 => {
+                    out.req("insert", format!("insert {e} 2 2 I1 S{} 2 I2 S{}", hex_of_str("only here"), hex_of_str("and here")));
+                    out.req("delete", format!("delete {e} -"));
+                }
+                1 => out.req("insert", format!("insert {e} 0")),
+                _ => {
+                    out.req("insert", format!("insert {e} 1 2 I1 S{}", hex_of_str("last string of the pool")));
+                    out.req("update", format!("update {e} 1 {} N -", hex_of_str("S")));
+                }
+            }
+        }
         if rng.chance(1, 2) {
             // database code page and summary code page are independent: leave them different
             out.req("set_db_cp", format!("set_db_cp {}", rng.pick(&["Windows1252", "Iso88591", "Utf8", "Windows1251"])));
@@ -1754,8 +1942,10 @@ fn gen_c02(out: &mut Out, rng: &mut Rng, thorough: bool) {
                                 let base = if c.key { format!("k{r}") } else { rng.pick(&["shared", "x", "two words", "Zed"]).to_string() };
                                 if unicode_ok && rng.chance(1, 6) {
                                     V::Str(format!("{base}\u{e9}\u{65e5}"))
-                                } else if rng.chance(1, 60) {
-                                    V::Str(format!("{base}{}", "L".repeat(66000)))
+                                } else if rng.chance(1, 25) {
+                                    // beyond 64 KiB: any length, and lengths whose low 16 bits are zero or all ones
+                                    let target = *rng.pick(&[66000usize + base.len(), 65536, 131072, 65535, 65537, 196608]);
+                                    V::Str(format!("{base}{}", "L".repeat(target - base.len())))
                                 } else {
                                     V::Str(base)
                                 }
